@@ -5,7 +5,7 @@ A flat buffer is an ordinary rank-1 array of the engine.  A FlatView reads/write
 where S is the lens shape given to reshape(), FLAT_R is an *uninterpreted* function per rank and PROD_R(S) is the
 (uninterpreted) element count.  What the proofs may use about them is instantiated per occurrence:
     bounds       0 <= L < S componentwise  =>  0 <= FLAT(S;L) < PROD(S)
-    injectivity  FLAT(S;L) = FLAT(S;L') for in-box L, L'  =>  L = L'
+    injectivity  FLAT(S;L) = FLAT(S;L') for in-box L, L'  =>  L = L'      (proved; only handed to the solver with VF_FLAT_INJ=1)
     concat       FLAT([p*s0,s1..]; r*s0+i0, i1..) = r*PROD([s0,s1..]) + FLAT([s0,s1..]; i0,i1..)   (C order, axis 0)
     PROD([p*s0,s1..]) = p*PROD([s0,s1..]),  PROD >= 0
 These are facts about row-major addressing; vf/lemmas_flat.py proves each of them with z3 from the definition
